@@ -12,7 +12,7 @@ import teneva
 from time import perf_counter as tpc
 
 
-def als(I_trn, y_trn, Y0, nswp=50, e=1.E-16, info={}, *, I_vld=None, y_vld=None,
+def als(I_trn, y_trn, Y0, nswp=50, e=1.E-16, info=None, *, I_vld=None, y_vld=None,
         e_vld=None, r=None, r_add=10000, e_adap=1.E-3, lamb=0.001, w=None,
         cb=None, swap_tol=3, allow_swap=False, allow_skip_cores=False,
         use_stab=False, log=False, update_sol=None):
@@ -84,6 +84,9 @@ def als(I_trn, y_trn, Y0, nswp=50, e=1.E-16, info={}, *, I_vld=None, y_vld=None,
 
     """
     _time = tpc()
+
+    if info is None:
+        info = {}
 
     assert r is None or update_sol is None, "Cannot update core of non-constant rank"
 
